@@ -1,3 +1,4 @@
 import CapyV.Props.C25
 import CapyV.Props.C27
 import CapyV.Props.C03
+import CapyV.Props.C22
